@@ -198,6 +198,17 @@ def special_molecules():
     out.append(("C16O18O", M([("C", 0, 0, 0), ("O", 16, 0, 0), ("O", 18, 0, 0)], [(0, 1, 2), (0, 2, 2)])))
     out.append(("N2H4-rad", M([("N", 0, 2, 0), ("N", 0, 0, 0)] + [("H", 0, 0, 0)] * 3, [(0, 1, 1), (0, 2, 1), (1, 3, 1), (1, 4, 1)])))
     out.append(("14N15N", M([("N", 14, 0, 0), ("N", 15, 0, 0)], [(0, 1, 3)])))
+    # equivalent atoms, one with an isotope label and one with a radical label of the SAME numeric value (a colour is the triple
+    # (element, mass, radical), not the bag of its non-default entries)
+    out.append(("HD-Hrad-O", M([("H", 2, 0, 0), ("H", 0, 2, 0), ("O", 0, 0, 0)], [(0, 2, 1), (1, 2, 1)])))
+    out.append(("T-Htriplet-O", M([("H", 0, 3, 0), ("H", 3, 0, 0), ("O", 0, 0, 0)], [(0, 2, 1), (1, 2, 1)])))
+    out.append(("CH4-m1-r1", M([("C", 0, 0, 0), ("H", 0, 1, 0), ("H", 1, 0, 0), ("H", 0, 0, 0), ("H", 0, 0, 0)], [(0, 1, 1), (0, 2, 1), (0, 3, 1), (0, 4, 1)])))
+    out.append(("3He-Hetriplet", M([("He", 3, 0, 0), ("He", 0, 3, 0)], [])))
+    out.append(("C2H6-m2-r2-m2r2", M([("C", 0, 0, 0), ("C", 0, 0, 0), ("H", 2, 0, 0), ("H", 0, 2, 0), ("H", 2, 2, 0), ("H", 0, 2, 0), ("H", 2, 0, 0), ("H", 0, 0, 0)],
+                                    [(0, 1, 1), (0, 2, 1), (0, 3, 1), (0, 4, 1), (1, 5, 1), (1, 6, 1), (1, 7, 1)])))
+    # isotope masses beyond 2^53 that differ in their last digit (numbers are integers of any size)
+    out.append(("mass2p53", M([("C", 2**53 + 1, 0, 0), ("C", 2**53, 0, 0), ("C", 2**53 + 2, 0, 0), ("O", 0, 0, 0)], [(0, 3, 1), (1, 3, 1), (2, 3, 1)])))
+    out.append(("mass1e30", M([("N", 10**30 + 7, 0, 0), ("N", 10**30 + 8, 2, 0)], [(0, 1, 2)])))
     # every element once (symbol table, Hill order, prefix-sharing symbols), bonded in a chain ordered by a fixed shuffle
     order = list(gen.SYMBOLS)
     random.Random(118).shuffle(order)
